@@ -53,7 +53,7 @@ def run(ctx, replay):
     ctx.tlc_check("MC_IndexOOO", "IndexOOO.cfg", workers=8)
     replays = _idxfam.generate(ctx, sizes, quick)
     ctx.sample({"replay": replays[len(replays) // 3]})
-    o5, o6 = _idxfam.run_driver(ctx, replays, which="06")
+    o5, o6 = _idxfam.run_driver(ctx, replays, which="06", shards=6)
     evs = validate(ctx, o6)
     n = sum(1 for e in evs if e["ev"] == "reset")
     q = sum(e.get("queries", 0) for e in evs if e["ev"] == "step")
